@@ -15,7 +15,9 @@
 (* the parameter version, the mode/grad flags seen by every forward.        *)
 EXTENDS Integers, Sequences, FiniteSets, TLC, Json
 
-CONSTANTS Configs      \* set of [k, n, ntimes, validation, optclass, lazy, init]
+CONSTANTS Configs      \* set of [k, n, ntimes, validation, optclass, lazy, init, pre_eval, extra]
+                       \* pre_eval: the hedger was left in evaluation mode before fit(); extra: the optimiser also owns
+                       \* parameters outside the model (a parametrised criterion)
 
 VARIABLES cfg, pc, epoch, mode, zeroed, steps, pver, contrib, batch, fresh, hlen, vdone, sims, out
 vars == <<cfg, pc, epoch, mode, zeroed, steps, pver, contrib, batch, fresh, hlen, vdone, sims, out>>
